@@ -126,8 +126,12 @@ EmitTables == \A tab \in ReplayTables : PrintT("TABLE " \o ToJson([rows |-> tab,
 LeafT(t) == [ty |-> t, kids |-> <<>>]
 WideForests == { << [ty |-> "A", kids |-> [i \in 1..n |-> LeafT(IF i % 2 = 0 THEN "A" ELSE "B")]], [ty |-> "B", kids |-> <<LeafT("A")>>] >> : n \in {10, 11, 12} }
                 \cup { << [ty |-> "B", kids |-> <<LeafT("B")>>], [ty |-> "A", kids |-> [i \in 1..11 |-> LeafT("A")]], [ty |-> "A", kids |-> <<LeafT("B"), LeafT("A")>>] >> }
-WideRebuildFlatten == \A f \in WideForests : Rebuild(Flatten(f)) = f
-EmitWide == \A f \in WideForests : PrintT("FOREST " \o ToJson([forest |-> f, flat |-> Flatten(f)]))
+\* ... and twelve siblings of which only the second and one of the last two have arguments of their own: at the next
+\* depth the children of sibling 1 are directly followed by those of sibling 10 (or 11), whose index begins with "1"
+SparseForests == { [i \in 1..12 |-> IF i = 2 THEN [ty |-> "A", kids |-> <<LeafT("B")>>]
+                                    ELSE IF i = k THEN [ty |-> "B", kids |-> <<LeafT("A"), LeafT("B")>>] ELSE LeafT("A")] : k \in {11, 12} }
+WideRebuildFlatten == \A f \in WideForests \cup SparseForests : Rebuild(Flatten(f)) = f
+EmitWide == \A f \in WideForests \cup SparseForests : PrintT("FOREST " \o ToJson([forest |-> f, flat |-> Flatten(f)]))
 
 \* ---- what a module is made of.  A class, a function and a type variable are exported as rows of class Symbol, a
 \* variable and an imported name as rows of class Reflection; a module may consist of any non-empty choice of them (a
